@@ -18,12 +18,12 @@ def names_of(p):
     return list(p[1]) if isinstance(p[1], (list, tuple)) else [p[1]]
 
 
-def fam(name, procs, init_slots, warm=None, warmval=0, maxval=1000, create=False):
+def fam(name, procs, init_slots, warm=None, warmval=0, maxval=1000, create=False, nokill=False):
     # a process may give a record up and allocate another one (repaired F16): one spare slot per process
     # warm: a counter whose record exists before the race, with a value `maxval - warmval` short of the
     # saturation limit (the model counts relative to 2^64-1-maxval)
     return dict(name=name, procs=procs, init=init_slots, maxslots=init_slots + 2 * sum(len(names_of(p)) for p in procs) + (1 if warm else 0),
-                warm=warm, warmval=warmval, maxval=maxval, create=create)
+                warm=warm, warmval=warmval, maxval=maxval, create=create, nokill=nokill)
 
 
 # Scripted scenarios for windows that need more processes than TLC can explore exhaustively: each entry is a
@@ -64,6 +64,9 @@ def families():
         # a late process re-writing the header of a file that already has records, a creator killed half-way)
         fam('create2', [('p1', 'n1'), ('p2', 'n2')], 0, create=True),
         fam('create2same', [('p1', 'n1'), ('p2', 'n1')], 0, create=True),
+        # three processes, two of them on one name and a third on a colliding name (a same-name record can sit
+        # BEHIND a newly linked record of another name); without kills, to stay small enough for the quick tier
+        fam('collide3nk', [('p1', 'n1'), ('p2', 'n2'), ('p3', 'n1')], 1, nokill=True),
     ]
     big = [
         fam('same3', [('p1', 'n1'), ('p2', 'n1'), ('p3', 'n1')], 3),
@@ -217,10 +220,10 @@ def run(ctx):
         mcw = mc_module(f, extra='\n'.join(oneshot))
         jobs.append((('MCCounterFile',), dict(files={'MCCounterFile.tla': mcw},
                                               cfg_text=mc_cfg(f, invariants=['WellFormed', 'UniqueNames', 'ValuesExact'] + sorted(onames),
-                                                              props=['LimitMonotone', 'ValuesMonotone']),
+                                                              props=['LimitMonotone', 'ValuesMonotone'], kill=not f.get('nokill')),
                                               label='CounterFile[%s] exhaustive' % f['name'], timeout=3000, workers=ctx.pick(2, 4), extra=['-continue'])))
         meta.append((f, 'exhaustive'))
-        jobs.append((('MCCounterFile',), dict(files={'MCCounterFile.tla': mc_module(f)}, cfg_text=mc_cfg(f),
+        jobs.append((('MCCounterFile',), dict(files={'MCCounterFile.tla': mc_module(f)}, cfg_text=mc_cfg(f, kill=not f.get('nokill')),
                                               simulate={'num': ctx.pick(60, 500), 'file': True}, depth=200,
                                               label='CounterFile[%s] simulate' % f['name'], count=False)))
         meta.append((f, 'simulate'))
@@ -355,7 +358,10 @@ def run(ctx):
 
     # records of different sizes and mappings of different ages (layout-independent clauses, CounterFileLite.tla)
     if not ctx.replay:
-        mruns = [dict(id=i + 1, seed=rng.randrange(1 << 30), kill=(i % 2 == 1)) for i in range(ctx.pick(80, 800))]
+        mruns = [dict(id=i + 1, seed=rng.randrange(1 << 30), kill=(i % 2 == 1), chain=0) for i in range(ctx.pick(80, 800))]
+        # hash chains far longer than a page's worth of records (legal: any number of names may share a bucket)
+        for n in ctx.pick([470, 600], [449, 470, 600, 1500]):
+            mruns.append(dict(id=len(mruns) + 1, seed=0, kill=False, chain=n))
         mrecs, rc, out = ctx.run_harness('./internal/counter', 'TestVerifMixedSizesC04', inp={'runs': mruns}, timeout=3000)
         mres = {r['run']: r for r in mrecs if r.get('kind') == 'result'}
         if len(mres) != len(mruns):
